@@ -241,3 +241,32 @@ Proof.
   rewrite (move_back_all rows cols (r0 + lr) c2 cols) by lia.
   cbn [do_move]. unfold zmin. destruct (rows - 1 <? r0 + lr + 1) eqn:F; f_equal; lia.
 Qed.
+
+Lemma move_fwd_exact : forall rows cols r n, 0 < cols -> 0 <= n < cols -> do_move rows cols (r, 0) (MFwd n) = (r, n).
+Proof. intros. cbn [do_move]. unfold zmin. destruct (n <? 1) eqn:E; [f_equal; lia|]. destruct (cols - 1 <? 0 + n) eqn:F; f_equal; lia. Qed.
+
+Lemma move_up_free : forall rows cols r c n, 0 <= n <= r -> do_move rows cols (r, c) (MUp n) = (r - n, c).
+Proof. intros. cbn [do_move]. unfold zmax. destruct (n <? 1) eqn:E; [f_equal; lia|]. destruct (0 <? r - n) eqn:F; f_equal; lia. Qed.
+
+(* from the end of the line just written (row r0 + line_rows, any column), with the rows of the
+   frame and the one below them on the screen, the moves that end Refresh put the terminal
+   cursor on row r0 + cursor_row, column cursor_col - the cell CoordinatesCursor computed *)
+Theorem refresh_ends_on_the_cursor_cell : forall rows cols r0 c cursor_col cursor_row start_cols line_rows,
+  0 < cols -> 0 <= r0 -> 0 <= c < cols -> 0 <= cursor_row <= line_rows -> 0 <= cursor_col < cols -> 0 <= start_cols ->
+  r0 + line_rows + 1 < rows ->
+  fold_left (do_move rows cols) (refresh_tail_moves cols cursor_col cursor_row start_cols line_rows) (r0 + line_rows, c)
+  = (r0 + cursor_row, cursor_col).
+Proof.
+  intros rows cols r0 c cc cr sc lr W R0 C CR CC SC H.
+  unfold refresh_tail_moves. cbn [fold_left].
+  replace (do_move rows cols (r0 + lr, c) MCrLf) with (r0 + lr + 1, 0) by (cbn [do_move]; unfold zmin; destruct (rows - 1 <? r0 + lr + 1) eqn:F; f_equal; lia).
+  rewrite (move_back_all rows cols (r0 + lr + 1) 0 cols) by lia.
+  rewrite (move_up_free rows cols (r0 + lr + 1) 0 1) by lia.
+  rewrite (move_up_free rows cols (r0 + lr + 1 - 1) 0 (lr - cr)) by lia.
+  rewrite (move_back_all rows cols (r0 + lr + 1 - 1 - (lr - cr)) 0 cc) by lia.
+  rewrite (move_up_free rows cols (r0 + lr + 1 - 1 - (lr - cr)) 0 cr) by lia.
+  destruct (move_fwd_in rows cols (r0 + lr + 1 - 1 - (lr - cr) - cr) 0 sc W ltac:(lia) SC) as (c1 & E1 & B1). rewrite E1.
+  rewrite (move_down_free rows cols (r0 + lr + 1 - 1 - (lr - cr) - cr) c1 cr) by lia.
+  rewrite (move_back_all rows cols (r0 + lr + 1 - 1 - (lr - cr) - cr + cr) c1 cols) by lia.
+  rewrite (move_fwd_exact rows cols _ cc W CC). f_equal. lia.
+Qed.
